@@ -10,8 +10,8 @@ method calls (`callDef`) and closures (`lam`, `callClo`).
 Design decisions (documented because they are choices, not facts about Elk):
 * types `T`: `Int`, `Bool`, `String`, `nil`, `T?`, function types, plus three types that cannot be
   written in source: `zde` (the type of a caught `Std::ZeroDivisionError`), `any` (the type of a
-  catch-all variable and the join of unrelated types: only `==`, `!=`, `!`, printing, truthiness
-  and passing around are allowed on it) and `never` (the type of a statement that never finishes
+  catch-all variable and the join of unrelated types: only `==`, `!=`, `!`, truthiness, `&&`/`||`/`??`
+  and passing around are allowed on it — no printing, no arithmetic, no call) and `never` (the type of a statement that never finishes
   normally: `return`, `break`, `continue`, `throw`).
 * `fits a b` (a value of type `a` may be stored where `b` is declared): same type, `never` into
   anything, `b` into `b?`, `nil` into `b?`.
